@@ -128,8 +128,9 @@ class BestIndividualRelativeChangeTolerance(EvolvingAnsatzMinimumEigensolverBase
             self._previous_expectation_value = population_evaluation.best_expectation_value
             return False
 
-        relative_change = abs(self._previous_expectation_value - population_evaluation.best_expectation_value) / abs(
-            self._previous_expectation_value
+        relative_change = _relative_change(
+            abs(self._previous_expectation_value - population_evaluation.best_expectation_value),
+            self._previous_expectation_value,
         )
         self._previous_expectation_value = population_evaluation.best_expectation_value
         self._relative_change_history.append(relative_change)
@@ -168,6 +169,22 @@ class BestIndividualExpectationValueThreshold(EvolvingAnsatzMinimumEigensolverBa
         if population_evaluation.best_expectation_value < self._expectation_threshold:
             return True
         return False
+
+
+def _relative_change(change: float, reference_value: float) -> float:
+    """
+    Sets a change in relation to the magnitude of a reference value. If the reference value is zero,
+    the relative change is infinitely large
+
+    :arg change: absolute change
+    :type change: float
+    :arg reference_value: value to which the change is set in relation
+    :type reference_value: float
+    :return: the change relative to the magnitude of the reference value
+    """
+    if reference_value == 0:
+        return float("inf")
+    return change / abs(reference_value)
 
 
 def _median_hausdorff_distance_by_expectation_value(
@@ -315,7 +332,7 @@ class PopulationChangeRelativeTolerance(EvolvingAnsatzMinimumEigensolverBaseTerm
                 ),
             )
 
-            self._relative_change_history.append(distance / last_population_median_expectation)
+            self._relative_change_history.append(_relative_change(distance, last_population_median_expectation))
 
         self._last_population_evaluation = population_evaluation
 
